@@ -61,6 +61,7 @@ type Contract struct {
 	funcName   string
 	Sig        *types.Signature
 	funcType   string // named func type for "functype" contracts
+	viaVar     bool   // contract for calls through a package-level variable of function type (funcType = its name)
 	// Uninterp: the body is never inlined nor verified; calls use the contract only
 }
 
@@ -671,6 +672,13 @@ func (db *SpecDB) resolveContracts(P *Program) {
 			}
 			sig = sg
 			c.Key = "dyncall:" + typeStr(tn.Type())
+		} else if v := c.resolveFuncVar(P); v != nil {
+			// package-level variable of function type (e.g. `var MsgTypeURL = codectypes.MsgTypeURL`): the contract
+			// applies to calls through the variable (package-level variables are assumed not to be reassigned, T4)
+			sig = v.Type().Underlying().(*types.Signature)
+			c.Key = "varcall:" + v.Pkg().Path() + "." + v.Name()
+			c.funcType = v.Name()
+			c.viaVar = true
 		} else {
 			obj, err := c.resolveFunc(P)
 			if err != nil {
@@ -696,6 +704,24 @@ func (db *SpecDB) resolveContracts(P *Program) {
 		}
 		db.Contracts[c.Key] = c
 	}
+}
+
+func (c *Contract) resolveFuncVar(P *Program) *types.Var {
+	if c.recvExpr != nil {
+		return nil
+	}
+	o, err := P.resolveNamed(c.funcName, c.PkgPath, c.Imports)
+	if err != nil {
+		return nil
+	}
+	v, ok := o.(*types.Var)
+	if !ok || v.Pkg() == nil || v.Parent() != v.Pkg().Scope() {
+		return nil
+	}
+	if _, ok := v.Type().Underlying().(*types.Signature); !ok {
+		return nil
+	}
+	return v
 }
 
 func (c *Contract) resolveFunc(P *Program) (*types.Func, error) {
